@@ -142,7 +142,7 @@ def parse_assumptions(out):
             cur = []
             blocks.append(cur)
         elif cur is not None:
-            m = re.match(r"^([A-Za-z_][\w.']*)\s*:", line)
+            m = re.match(r"^([A-Za-z_][\w.']*)\s*(:|$)", line)
             if m:
                 cur.append(m.group(1))
             elif line and not line.startswith(" "):
